@@ -123,6 +123,18 @@ Section Analysis.
   Definition run_interrupted (st : ast) (c : container X M) (k : nat) : ast :=
     fold_left (fun s sub => batch_loop_compute (process c s sub)) (firstn k (batches_of (c_rows c) (eff_bs (c_bs c)))) st.
 
+  (* a history of run() calls some of which are interrupted: (container, None) completes, (container, Some k) raises while its
+     batch number k is prepared; the rows each of them hands to update() *)
+  Definition run_h (st : ast) (h : container X M * option nat) : ast :=
+    match snd h with None => run st (fst h) | Some k => run_interrupted st (fst h) k end.
+  Definition hist_seq (st : ast) (hs : list (container X M * option nat)) : ast := fold_left run_h hs st.
+  Definition rows_h (h : container X M * option nat) : list (X * D) :=
+    match snd h with
+    | None => rows_of (fst h)
+    | Some k => rows_sub (fst h) (concat (firstn k (batches_of (c_rows (fst h)) (eff_bs (c_bs (fst h))))))
+    end.
+  Definition hist_rows (hs : list (container X M * option nat)) : list (X * D) := concat (map rows_h hs).
+
   (* several run() calls on the same object, in order *)
   Definition run_seq (st : ast) (runs : list (container X M)) : ast := fold_left run runs st.
 
@@ -347,6 +359,8 @@ Definition unit_fresh := fresh nat nat nat 0.
 Record c08_case := {
   c8_step : nat;                          (* convergence_step *)
   c8_runs : list (nat * nat);             (* (number of traces of the container, container.batch_size) of every run() *)
+  c8_fails : list (option nat);           (* per run(): Some p = trace number p makes its batch raise (the run() is interrupted) *)
+  c8_obs_fed : list nat;                  (* per run(): number of rows handed to update() *)
   c8_prec : prec;
   c8_width : nat;                         (* number of score entries (product of scores.shape) *)
   c8_obs_computes : list (nat * nat);     (* (processed_traces, columns so far) at every compute_results call *)
@@ -365,14 +379,21 @@ Record c08_case := {
 
 Definition c08_container (r : nat * nat) : container unit unit :=
   {| c_rows := repeat (tt, tt) (fst r); c_fr := fun x => x; c_chain := []; c_bs := snd r |}.
+(* one run() of the history on the row-counting instance: complete, or interrupted at the batch holding trace p *)
+Definition unit_run_h (step : nat) (st : ast nat nat nat) (r : nat * nat) (f : option nat) : ast nat nat nat :=
+  match f with
+  | None => unit_run (Some step) st [c08_container r]
+  | Some p => run_interrupted unit unit unit unit nat nat nat 0 Nat.add (fun _ => 1) (fun s => s) (fun m => m) (fun v => v)
+                (fun o => o) (Some step) st (c08_container r) (p / conv_bs (snd r) step)
+  end.
 Definition c08_model_state (c : c08_case) :=
-  unit_run (Some (c8_step c)) unit_fresh (map c08_container (c8_runs c)).
-(* states after each run *)
-Fixpoint c08_ncols_after (step : nat) (st : ast nat nat nat) (runs : list (nat * nat)) : list nat :=
+  fold_left (fun st rf => unit_run_h (c8_step c) st (fst rf) (snd rf)) (combine (c8_runs c) (c8_fails c)) unit_fresh.
+(* number of columns and of traces after each run *)
+Fixpoint c08_after (step : nat) (st : ast nat nat nat) (runs : list ((nat * nat) * option nat)) : list (nat * nat) :=
   match runs with
   | [] => []
-  | r :: t => let st' := unit_run (Some step) st [c08_container r] in
-              length (cols st') :: c08_ncols_after step st' t
+  | rf :: t => let st' := unit_run_h step st (fst rf) (snd rf) in
+               (length (cols st'), processed st') :: c08_after step st' t
   end.
 
 Definition c08_points (c : c08_case) : list nat := map fst (cols (c08_model_state c)).
@@ -404,18 +425,34 @@ Fixpoint split_counts (prev : nat) (counts : list nat) (pts : list nat) : list (
   | c :: t => firstn (c - prev) pts :: split_counts c t (skipn (c - prev) pts)
   end.
 
-(* after every run(): at least one column, the last one at the total number of traces processed so far *)
-Fixpoint runs_points_ok (step lastreg total : nat) (runs : list (nat * nat)) (groups : list (list nat)) : bool :=
-  match runs, groups with
-  | [], [] => true
-  | r :: rt, g :: gt =>
-      let total' := total + fst r in
-      negb (is_nil g) && Nat.eqb (last g 0) total'
+(* all the points of an INTERRUPTED run() close a full step (there is no final column) and lie within the rows fed so far *)
+Fixpoint regular_points_ok (step lastreg total : nat) (pts : list nat) : option nat :=
+  match pts with
+  | [] => Some lastreg
+  | p :: t => if (lastreg + step <=? p) && (p <=? total) then regular_points_ok step p total t else None
+  end.
+
+(* after every complete run(): at least one column, the last one at the number of rows fed so far; an interrupted run() only
+   feeds rows before its failing trace and only appends full-step columns *)
+Fixpoint runs_points_ok (step lastreg total : nat) (runs : list ((nat * nat) * option nat)) (fed : list nat)
+                        (groups : list (list nat)) : bool :=
+  match runs, fed, groups with
+  | [], [], [] => true
+  | (r, None) :: rt, f :: ft, g :: gt =>
+      let total' := total + f in
+      Nat.eqb f (fst r) && negb (is_nil g) && Nat.eqb (last g 0) total'
       && match run_points_ok step lastreg g with
-         | Some lr => runs_points_ok step lr total' rt gt
+         | Some lr => runs_points_ok step lr total' rt ft gt
          | None => false
          end
-  | _, _ => false
+  | (r, Some p) :: rt, f :: ft, g :: gt =>
+      let total' := total + f in
+      (f <=? p) && (p <? fst r)
+      && match regular_points_ok step lastreg total' g with
+         | Some lr => runs_points_ok step lr total' rt ft gt
+         | None => false
+         end
+  | _, _, _ => false
   end.
 
 (* PROPERTY level (check_fn): the clauses of the property on public observables — no reference to the state machine. *)
@@ -425,10 +462,12 @@ Definition c08_check (c : c08_case) : bool :=
   && forallb (fun r => (1 <=? fst r) && (1 <=? snd r)) (c8_runs c)
   && Nat.eqb (length (c8_obs_conv c)) (length (c8_obs_points c))
   && Nat.eqb (last (c8_obs_ncols c) 0) (length (c8_obs_points c))
-  (* the points are strictly increasing, at least one step apart except a final remainder; after every run() the last one
-     is the total number of traces *)
+  (* the points are strictly increasing, at least one step apart except a final remainder; after every complete run() the
+     last one is the number of rows fed so far (a run() that raised contributes the rows it fed before) *)
   && strictly_increasing (c8_obs_points c)
-  && runs_points_ok (c8_step c) 0 0 (c8_runs c) (split_counts 0 (c8_obs_ncols c) (c8_obs_points c))
+  && Nat.eqb (length (c8_fails c)) (length (c8_runs c))
+  && runs_points_ok (c8_step c) 0 0 (combine (c8_runs c) (c8_fails c)) (c8_obs_fed c)
+                    (split_counts 0 (c8_obs_ncols c) (c8_obs_points c))
   (* every column is the score of a fresh attack on the prefix: EXACTLY (same code on the same exactly-summed accumulators;
      a column stored in a narrower dtype than the scores is not the scores) *)
   && forallb2 (fvals_same 0) (c8_obs_conv c) (c8_prefix_scores c)
@@ -444,7 +483,10 @@ Definition c08_check (c : c08_case) : bool :=
 Definition c08_corr (c : c08_case) : bool :=
   let st := c08_model_state c in
   list_eqb pairnat_eqb (c8_obs_computes c) (computes st)
-  && natlist_eqb (c8_obs_ncols c) (c08_ncols_after (c8_step c) unit_fresh (c8_runs c))
+  && natlist_eqb (c8_obs_ncols c) (map fst (c08_after (c8_step c) unit_fresh (combine (c8_runs c) (c8_fails c))))
+  (* an interrupted run() fed exactly the batches before the one holding the failing trace *)
+  && natlist_eqb (map snd (c08_after (c8_step c) unit_fresh (combine (c8_runs c) (c8_fails c))))
+                 (tl (fold_left (fun acc f => acc ++ [last acc 0 + f]) (c8_obs_fed c) [0]))
   && natlist_eqb (c8_obs_points c) (c08_points c)
   && match c8_obs_marks c with Some m => natlist_eqb m (marks st) | None => true end.
 
